@@ -323,7 +323,12 @@ func oddScript(t *rapid.T) []byte {
 	g := []byte{0x79, 0xbe, 0x66, 0x7e, 0xf9, 0xdc, 0xbb, 0xac, 0x55, 0xa0, 0x62, 0x95, 0xce, 0x87, 0x0b, 0x07, 0x02, 0x9b, 0xfc, 0xdb, 0x2d, 0xce, 0x28, 0xd9, 0x59, 0xf2, 0x81, 0x5b, 0x16, 0xf8, 0x17, 0x98}
 	gy := []byte{0x48, 0x3a, 0xda, 0x77, 0x26, 0xa3, 0xc4, 0x65, 0x5d, 0xa4, 0xfb, 0xfc, 0x0e, 0x11, 0x08, 0xa8, 0xfd, 0x17, 0xb4, 0x48, 0xa6, 0x85, 0x54, 0x19, 0x9c, 0x47, 0xd0, 0x8f, 0xfb, 0x10, 0xd4, 0xb8}
 	h20 := rapid.SliceOfN(rapid.Byte(), 20, 20).Draw(t, "h20")
-	switch rapid.IntRange(0, 9).Draw(t, "oddKind") {
+	switch rapid.IntRange(0, 11).Draw(t, "oddKind") {
+	case 10:
+		// a script that does not parse (a push without its data): never stored, like OP_RETURN outputs
+		return rapid.SampledFrom([][]byte{{0x4c}, {0x05, 0x01}, {0x51, 0x4d, 0xff}, {0x4e, 0x01, 0x00, 0x00}, {0x4c, 0x02, 0x01}, {0x51, 0x4b}}).Draw(t, "unparseable")
+	case 11:
+		return append([]byte{0x6a}, h20[:rapid.IntRange(0, 20).Draw(t, "opReturnLen")]...) // OP_RETURN with or without (unframed) data
 	case 0:
 		return append(append([]byte{0x76, 0xa9, 0x14}, h20...), 0x88, 0xac) // P2PKH form
 	case 1:
